@@ -26,6 +26,7 @@ import (
 	"sort"
 	"strconv"
 	"strings"
+	"sync"
 	"sync/atomic"
 	"syscall"
 	"time"
@@ -697,14 +698,42 @@ func c08Try(f func() string) (out string) {
 
 // c08NextTokenGuarded: nextToken under recover (pn = the panic value, "" if none)
 func c08NextTokenGuarded(b []byte) (id int, v []byte, pn string) {
-	defer func() {
-		if p := recover(); p != nil {
-			pn = c08Norm(fmt.Sprint(p))
-		}
+	type res struct {
+		id int
+		v  []byte
+		pn string
+	}
+	if c08ScannerHung {
+		return 0, nil, "HANG (not called again: the tokenizer did not return on an earlier input)"
+	}
+	ch := make(chan res, 1)
+	go func() {
+		var o res
+		defer func() {
+			if p := recover(); p != nil {
+				o.pn = c08Norm(fmt.Sprint(p))
+			}
+			ch <- o
+		}()
+		o.id, o.v = syntax.VerifNextToken(b)
 	}()
-	id, v = syntax.VerifNextToken(b)
-	return id, v, ""
+	t := time.NewTimer(c08ScanDeadline)
+	defer t.Stop()
+	select {
+	case o := <-ch:
+		return o.id, o.v, o.pn
+	case <-t.C:
+		c08ScannerHung = true
+		return 0, nil, "HANG: nextToken did not return within " + c08ScanDeadline.String()
+	}
 }
+
+// The real tokenizer runs in this process; a call that does not return cannot be stopped, only
+// abandoned (its goroutine keeps spinning until the harness exits).  After the first such call the
+// tokenizer is not called again by the token-level phases.
+var c08ScannerHung bool
+
+const c08ScanDeadline = 10 * time.Second
 
 func optHexGo(b []byte) string {
 	if b == nil {
@@ -745,21 +774,45 @@ func runC08(c *Ctx) {
 		if only == "lex" || only == "lex:stream" {
 			c08TokenStream(c)
 		}
+		if only == "lex" || only == "lex:actions" {
+			c08Actions(c)
+		}
+		if only == "lex" || only == "lex:extra" {
+			c08LexExtra(c)
+		}
+		if only == "lex" || only == "lex:parse" {
+			c08ParserTrace(c)
+		}
 		return
 	}
 
 	// ---- 0 + 2. corpus and API-level monitors, in a child process: a fatal Go error
 	// (stack overflow, out of memory) in the code under test cannot be recovered in-process.
-	// The child runs concurrently with the other phases; its result is merged at the end. ----
+	// ---- 3b. include trees with planted errors (child process). ---- 4a. first pass of the scaling
+	// probes (subprocesses). These three use neither the Lean driver nor c.Rng (the children derive
+	// their own generators from the seed; the probes are fixed inputs), so they run concurrently with
+	// the token-level phases, each into its own Result; the results are merged in a fixed order. ----
 	t0 := time.Now()
-	apiDone := make(chan *Result, 1)
-	go func() {
-		sub := &Result{}
+	type phase struct {
+		res  *Result
+		done chan struct{}
+		dur  time.Duration
+	}
+	launch := func(f func(cc *Ctx)) *phase {
+		p := &phase{res: &Result{}, done: make(chan struct{})}
 		cc := *c
-		cc.Res = sub
-		c08RunAPIChild(&cc)
-		apiDone <- sub
-	}()
+		cc.Res = p.res
+		go func() {
+			f(&cc)
+			p.dur = time.Since(t0)
+			close(p.done)
+		}()
+		return p
+	}
+	pAPI := launch(c08RunAPIChild)
+	pTree := launch(c08RunIncTrees)
+	var scale *c08ScaleState
+	pScale := launch(func(cc *Ctx) { scale = c08ScalingFirstPass(cc) })
 
 	// ---- 1. token-level correspondence ----
 	c08Tokens(c)
@@ -768,16 +821,38 @@ func runC08(c *Ctx) {
 	c08TokenStream(c)
 	// ---- 3. src_stm action: Go vs model ----
 	c08SrcAction(c)
-	// ---- 3b. include trees with planted errors: every returned error is rendered (child process) ----
-	c08RunIncTrees(c)
+	// ---- 3a. every token-consuming grammar action: real parser on tiny programs vs Martian.LexerActions ----
+	c08Actions(c)
+	// ---- 3c. identifier recogniser; white-space set ----
+	c08LexExtra(c)
+	// ---- 3d. the goyacc driver: debug trace of the real parser vs the Lean model of the LR loop ----
+	c08ParserTrace(c)
 	tTok := time.Since(t0)
 
-	// ---- 4. scaling probes (subprocess) ----
-	t1 := time.Now()
-	c08Scaling(c)
-	tScale := time.Since(t1)
+	<-pTree.done
+	<-pScale.done
+	<-pAPI.done
+	tConc := time.Since(t0)
 
-	sub := <-apiDone
+	// ---- 4b. scaling probes, verdicts: a kind with a timing verdict is measured again now, when nothing
+	// else of this harness is running, before anything is reported ----
+	t1 := time.Now()
+	{
+		cc := *c
+		cc.Res = pScale.res
+		c08ScalingFinish(&cc, scale)
+	}
+	tAlone := time.Since(t1)
+
+	for _, sub := range []*Result{pTree.res, pScale.res, pAPI.res} {
+		c08Merge(r, sub)
+	}
+	r.note("phase wall times: token level+src action %.1fs; concurrently: include trees %.1fs, scaling probes first pass %.1fs, API monitors (child) %.1fs; all concurrent phases done after %.1fs; scaling probes re-measured alone %.1fs",
+		tTok.Seconds(), pTree.dur.Seconds(), pScale.dur.Seconds(), pAPI.dur.Seconds(), tConc.Seconds(), tAlone.Seconds())
+}
+
+// c08Merge adds the counts, samples, histogram, violations, notes and extras of sub to r.
+func c08Merge(r, sub *Result) {
 	r.Evals += sub.Evals
 	r.Distinct += sub.Distinct
 	for _, x := range sub.Samples {
@@ -791,8 +866,12 @@ func runC08(c *Ctx) {
 	}
 	r.Violations = append(r.Violations, sub.Violations...)
 	r.Notes = append(r.Notes, sub.Notes...)
-	r.note("phase wall times: tokens+src action+include trees %.1fs, scaling probes %.1fs, API monitors (child, concurrent) done after %.1fs",
-		tTok.Seconds(), tScale.Seconds(), time.Since(t0).Seconds())
+	for k, v := range sub.Extra {
+		if r.Extra == nil {
+			r.Extra = map[string]interface{}{}
+		}
+		r.Extra[k] = v
+	}
 }
 
 // c08RunAPIChild runs runC08API in a subprocess and merges its result; if the child dies,
@@ -971,7 +1050,13 @@ func runC08API(c *Ctx) {
 		if (len(s.src) > 1200 && !c.Thorough) || len(s.src) > 6000 {
 			continue
 		}
-		for i := 0; i < len(s.src); i++ {
+		// quick tier: every byte of the seeds up to 600 bytes, every second byte (parity drawn per seed)
+		// of the seeds up to 1200 bytes; thorough tier: every byte
+		from, step := 0, 1
+		if !c.Thorough && len(s.src) > 600 {
+			from, step = c.Rng.Intn(2), 2
+		}
+		for i := from; i < len(s.src); i += step {
 			r.hist("truncate-every-byte")
 			checkInput(s.src[:i], s.path, s.inc, "truncate:"+s.name, true)
 		}
@@ -1063,6 +1148,11 @@ func c08Tokens(c *Ctx) {
 		}
 		if len(b) > 0 && (b[0] == '-' || (b[0] >= '0' && b[0] <= '9')) {
 			id, v, pn := c08NextTokenGuarded(b)
+			if strings.HasPrefix(pn, "HANG") {
+				r.violate(Violation{Kind: "property", Key: "C08:hang:nextToken", What: "nextToken does not terminate: " + pn,
+					Input: strconv.Quote(s), Impl: pn, Expect: "a token or INVALID", Broken: "Props.C08.lexer_progress_full"})
+				continue
+			}
 			if pn != "" {
 				r.violate(Violation{Kind: "property", Key: "C08:panic:nextToken",
 					What:  "nextToken (the tokenizer, before any grammar action) panics on a numeric-looking head: " + pn,
@@ -1289,6 +1379,9 @@ type c08Probe struct {
 	Out   string  `json:"outcome"`
 	Msg   string  `json:"msg,omitempty"`
 	Loc   bool    `json:"located"`
+	// Truncated: the measurement was stopped when the CPU budget given by the parent was used up;
+	// CpuMs / Ms are then lower bounds
+	Truncated bool `json:"truncated,omitempty"`
 }
 
 func c08CpuMs() float64 {
@@ -1395,18 +1488,27 @@ func c08ProbeInput(kind string, n int) []byte {
 	return []byte(sb.String())
 }
 
-// runC08Probe is executed in a subprocess: VERIF_C08_PROBE="kind:n".
+// runC08Probe is executed in a subprocess: VERIF_C08_PROBE="kind:n". Optional: VERIF_C08_PROBE_API
+// restricts the run to one API; VERIF_C08_PROBE_BUDGET_MS (with one API) stops the measurement as soon
+// as that much CPU time has been used - the parent sets the budget above every threshold the
+// measurement is compared with, so the verdicts are those of the complete run.
 func runC08Probe(c *Ctx) {
 	spec := strings.SplitN(os.Getenv("VERIF_C08_PROBE"), ":", 2)
 	if len(spec) != 2 {
 		fatal("VERIF_C08_PROBE not set")
 	}
 	n, _ := strconv.Atoi(spec[1])
+	onlyAPI := os.Getenv("VERIF_C08_PROBE_API")
+	budget, _ := strconv.ParseFloat(os.Getenv("VERIF_C08_PROBE_BUDGET_MS"), 64)
 	src := c08ProbeInput(spec[0], n)
 	var out []c08Probe
 	for _, api := range c08APIs {
-		p := c08Probe{Kind: spec[0], N: n, Bytes: len(src), API: api.name}
-		func() {
+		if onlyAPI != "" && api.name != onlyAPI {
+			continue
+		}
+		api := api
+		measure := func() (p c08Probe) {
+			p = c08Probe{Kind: spec[0], N: n, Bytes: len(src), API: api.name}
 			start := time.Now()
 			cpu0 := c08CpuMs()
 			defer func() {
@@ -1428,13 +1530,105 @@ func runC08Probe(c *Ctx) {
 			} else {
 				p.Out = "tree"
 			}
-		}()
-		out = append(out, p)
+			return p
+		}
+		if budget <= 0 || onlyAPI == "" {
+			out = append(out, measure())
+			continue
+		}
+		start := time.Now()
+		cpu0 := c08CpuMs()
+		ch := make(chan c08Probe, 1)
+		go func() { ch <- measure() }()
+		tick := time.NewTicker(10 * time.Millisecond)
+		for fin := false; !fin; {
+			select {
+			case p := <-ch:
+				out = append(out, p)
+				fin = true
+			case <-tick.C:
+				if cpu := c08CpuMs() - cpu0; cpu > budget {
+					// leave the call running; the process ends with this function's caller
+					out = append(out, c08Probe{Kind: spec[0], N: n, Bytes: len(src), API: api.name, Out: "stopped-at-cpu-budget",
+						Truncated: true, CpuMs: cpu, Ms: float64(time.Since(start).Microseconds()) / 1000})
+					fin = true
+				}
+			}
+		}
+		tick.Stop()
 	}
 	c.Res.Extra = map[string]interface{}{"probes": out}
 }
 
-func c08Scaling(c *Ctx) {
+type c08Job struct {
+	kind string
+	n    int
+}
+
+type c08JobRes struct {
+	j      c08Job
+	probes []c08Probe
+	crash  string
+}
+
+// c08ScaleState: what the first pass of the scaling probes hands to the verdict pass.
+type c08ScaleState struct {
+	self    string
+	results []c08JobRes // in the order of the probe table (kind, increasing n)
+}
+
+// c08RunProbe runs one probe subprocess; api == "" runs the three APIs in one process; budgetMs > 0
+// (with one API) stops the measurement once that much CPU has been used.
+func c08RunProbe(c *Ctx, self string, tag string, j c08Job, api string, budgetMs float64) c08JobRes {
+	outf := filepath.Join(c.Scratch, fmt.Sprintf("probe-%s-%s-%d%s.json", tag, j.kind, j.n, api))
+	cmd := exec.Command(self, "-tier", c.Tier, "-out", outf, "-repo", c.RepoDir, "C08-probe")
+	cmd.Env = append(os.Environ(), fmt.Sprintf("VERIF_C08_PROBE=%s:%d", j.kind, j.n), "GOMAXPROCS=2")
+	if api != "" {
+		cmd.Env = append(cmd.Env, "VERIF_C08_PROBE_API="+api, fmt.Sprintf("VERIF_C08_PROBE_BUDGET_MS=%.0f", budgetMs))
+	}
+	var eb bytes.Buffer
+	cmd.Stderr = &eb
+	if err := cmd.Start(); err != nil {
+		return c08JobRes{j: j, crash: "cannot start: " + err.Error()}
+	}
+	wd := make(chan error, 1)
+	go func() { wd <- cmd.Wait() }()
+	limit := 60 * time.Second
+	select {
+	case err := <-wd:
+		res := c08JobRes{j: j}
+		if err != nil {
+			msg := eb.String()
+			if k := strings.Index(msg, "\n\n"); k > 0 {
+				msg = msg[:k]
+			}
+			if len(msg) > 400 {
+				msg = msg[:400]
+			}
+			res.crash = fmt.Sprintf("%v: %s", err, msg)
+		} else if b, err := os.ReadFile(outf); err == nil {
+			var rr struct {
+				Extra struct {
+					Probes []c08Probe `json:"probes"`
+				} `json:"extra"`
+			}
+			if json.Unmarshal(b, &rr) == nil {
+				res.probes = rr.Extra.Probes
+			}
+		}
+		os.Remove(outf)
+		return res
+	case <-time.After(limit):
+		cmd.Process.Kill()
+		<-wd
+		return c08JobRes{j: j, crash: fmt.Sprintf("killed after %v", limit)}
+	}
+}
+
+// c08ScalingFirstPass runs every probe once, several at a time and possibly next to other phases of
+// this harness. Nothing is judged here: CPU times measured under contention only err upwards, and
+// every timing verdict is measured again alone by c08ScalingFinish before it is reported.
+func c08ScalingFirstPass(c *Ctx) *c08ScaleState {
 	r := c.Res
 	type pr struct {
 		kind string
@@ -1461,85 +1655,125 @@ func c08Scaling(c *Ctx) {
 	self, err := os.Executable()
 	if err != nil {
 		r.note("scaling probes skipped: %v", err)
-		return
+		return nil
 	}
-	type job struct {
-		kind string
-		n    int
-	}
-	type jres struct {
-		j      job
-		probes []c08Probe
-		crash  string
-	}
-	runJob := func(i int, j job) jres {
-		outf := filepath.Join(c.Scratch, fmt.Sprintf("probe-%d-%s-%d.json", i, j.kind, j.n))
-		cmd := exec.Command(self, "-tier", c.Tier, "-out", outf, "-repo", c.RepoDir, "C08-probe")
-		cmd.Env = append(os.Environ(), fmt.Sprintf("VERIF_C08_PROBE=%s:%d", j.kind, j.n), "GOMAXPROCS=2")
-		var eb bytes.Buffer
-		cmd.Stderr = &eb
-		if err := cmd.Start(); err != nil {
-			return jres{j: j, crash: "cannot start: " + err.Error()}
-		}
-		wd := make(chan error, 1)
-		go func() { wd <- cmd.Wait() }()
-		limit := 60 * time.Second
-		select {
-		case err := <-wd:
-			res := jres{j: j}
-			if err != nil {
-				msg := eb.String()
-				if k := strings.Index(msg, "\n\n"); k > 0 {
-					msg = msg[:k]
-				}
-				if len(msg) > 400 {
-					msg = msg[:400]
-				}
-				res.crash = fmt.Sprintf("%v: %s", err, msg)
-			} else if b, err := os.ReadFile(outf); err == nil {
-				var rr struct {
-					Extra struct {
-						Probes []c08Probe `json:"probes"`
-					} `json:"extra"`
-				}
-				if json.Unmarshal(b, &rr) == nil {
-					res.probes = rr.Extra.Probes
-				}
-			}
-			return res
-		case <-time.After(limit):
-			cmd.Process.Kill()
-			<-wd
-			return jres{j: j, crash: fmt.Sprintf("killed after %v", limit)}
-		}
-	}
-	var jobs []job
+	var jobs []c08Job
 	for _, p := range probes {
 		for _, n := range p.ns {
-			jobs = append(jobs, job{p.kind, n})
+			jobs = append(jobs, c08Job{p.kind, n})
 		}
 	}
-	results := make([]jres, len(jobs))
-	sem := make(chan struct{}, 4)
-	donech := make(chan int, len(jobs))
-	for i, j := range jobs {
-		go func(i int, j job) {
-			sem <- struct{}{}
-			defer func() { <-sem; donech <- i }()
-			results[i] = runJob(i, j)
-		}(i, j)
+	// start order: the largest size of the kinds that take longest first, so that the longest job is
+	// not the last one to be started (results are stored by index: the order has no other effect)
+	heavy := []string{"call-chain-reversed", "call-chain", "long-map", "nest-struct-exp", "nest-map-exp", "nest-array-call",
+		"long-array", "struct-assign", "nest-array-exp", "many-stages"}
+	var order []int
+	taken := make([]bool, len(jobs))
+	for _, k := range heavy {
+		best := -1
+		for i, j := range jobs {
+			if j.kind == k && (best < 0 || j.n > jobs[best].n) {
+				best = i
+			}
+		}
+		if best >= 0 {
+			order = append(order, best)
+			taken[best] = true
+		}
 	}
-	for range jobs {
-		<-donech
+	for i := range jobs {
+		if !taken[i] {
+			order = append(order, i)
+		}
 	}
-	// verdict for one kind given its results in increasing n: "" or (key suffix, what)
+	workers := 6
+	if c.Thorough {
+		workers = 4 // the largest inputs of this tier need the memory
+	}
+	// Quick tier: the jobs put first are run API by API (three processes that can run side by side),
+	// each stopped once its CPU time is certainly above the slow limit (limit*1.05 + 50 ms): from there on
+	// the job has a timing verdict whatever the final figure, and is measured again alone anyway.
+	type unit struct {
+		job int
+		api string // "" = the three APIs in one process
+	}
+	var units []unit
+	for _, i := range order {
+		if taken[i] && !c.Thorough {
+			for _, api := range c08APIs {
+				units = append(units, unit{i, api.name})
+			}
+		} else {
+			units = append(units, unit{i, ""})
+		}
+	}
+	results := make([]c08JobRes, len(jobs))
+	parts := make([][]c08JobRes, len(jobs)) // per job, per API index
+	for i := range parts {
+		parts[i] = make([]c08JobRes, len(c08APIs))
+	}
+	queue := make(chan unit, len(units))
+	for _, u := range units {
+		queue <- u
+	}
+	close(queue)
+	fin := make(chan struct{}, workers)
+	for w := 0; w < workers; w++ {
+		go func() {
+			for u := range queue {
+				if u.api == "" {
+					results[u.job] = c08RunProbe(c, self, fmt.Sprintf("a%d", u.job), jobs[u.job], "", 0)
+					continue
+				}
+				budget := (2000+float64(len(c08ProbeInput(jobs[u.job].kind, jobs[u.job].n)))*0.05)*1.05 + 50
+				for k, api := range c08APIs {
+					if api.name == u.api {
+						parts[u.job][k] = c08RunProbe(c, self, fmt.Sprintf("a%d", u.job), jobs[u.job], u.api, budget)
+					}
+				}
+			}
+			fin <- struct{}{}
+		}()
+	}
+	for w := 0; w < workers; w++ {
+		<-fin
+	}
+	for i := range jobs {
+		if !(taken[i] && !c.Thorough) {
+			continue
+		}
+		res := c08JobRes{j: jobs[i]}
+		for _, part := range parts[i] {
+			if part.crash != "" {
+				res.crash, res.probes = part.crash, nil
+				break
+			}
+			res.probes = append(res.probes, part.probes...)
+		}
+		results[i] = res
+	}
+	return &c08ScaleState{self: self, results: results}
+}
+
+// c08ScalingFinish judges the probes kind by kind. It must be called when nothing else of this harness
+// is running: a kind with a timing verdict (slow, superlinear, hang) is measured again, alone, one
+// process at a time, and only what that second measurement shows is reported.
+func c08ScalingFinish(c *Ctx, st *c08ScaleState) {
+	r := c.Res
+	if st == nil {
+		return
+	}
+	const alphaMax = 1.7
+	limitOf := func(bytes int) float64 { return 2000 + float64(bytes)*0.05 }
+	type pt struct {
+		bytes int
+		cpu   float64
+	}
+	// verdict for one kind given its results in increasing n: (key suffix, what); first = CPU times of the
+	// first pass by "n/api", quoted next to a measurement that was stopped at its budget
 	type verdict struct{ cls, what string }
-	judge := func(kind string, rs []jres) []verdict {
+	judge := func(kind string, rs []c08JobRes, first map[string]float64) []verdict {
 		var out []verdict
-		type pt struct {
-			bytes int
-			cpu   float64
-		}
 		last := map[string]pt{}
 		for _, res := range rs {
 			if res.crash != "" {
@@ -1557,62 +1791,194 @@ func c08Scaling(c *Ctx) {
 				continue
 			}
 			for _, p := range res.probes {
-				limitMs := 2000 + float64(p.Bytes)*0.05
+				limitMs := limitOf(p.Bytes)
+				cpuTxt := fmt.Sprintf("%.0f ms", p.CpuMs)
+				if p.Truncated {
+					cpuTxt = fmt.Sprintf("more than %.0f ms (measurement alone stopped there; %.0f ms or more in the first, concurrent pass)",
+						p.CpuMs, first[fmt.Sprintf("%d/%s", p.N, p.API)])
+				}
 				switch {
 				case p.Out == "panic":
 					out = append(out, verdict{"panic:" + c08Norm(p.Msg), fmt.Sprintf("%s panicked on probe %s n=%d: %s", p.API, p.Kind, p.N, p.Msg)})
 				case p.CpuMs > limitMs:
-					out = append(out, verdict{"slow:" + kind, fmt.Sprintf("%s used %.0f ms of CPU (%.0f ms wall) on probe %s n=%d (%d bytes; limit 2 s + 50 us/byte)", p.API, p.CpuMs, p.Ms, p.Kind, p.N, p.Bytes)})
+					out = append(out, verdict{"slow:" + kind, fmt.Sprintf("%s used %s of CPU (%.0f ms wall) on probe %s n=%d (%d bytes; limit 2 s + 50 us/byte)", p.API, cpuTxt, p.Ms, p.Kind, p.N, p.Bytes)})
 				case p.Out == "error" && !p.Loc:
 					out = append(out, verdict{"unlocated-error:" + c08Norm(p.Msg), fmt.Sprintf("%s returned an error without position on probe %s n=%d: %s", p.API, p.Kind, p.N, p.Msg)})
 				}
 				if prev, ok := last[p.API]; ok && p.CpuMs > 1000 && prev.cpu > 0 && p.Bytes > prev.bytes {
 					alpha := math.Log(p.CpuMs/prev.cpu) / math.Log(float64(p.Bytes)/float64(prev.bytes))
-					if alpha > 1.7 {
-						out = append(out, verdict{"superlinear:" + kind, fmt.Sprintf("%s: CPU time grows like size^%.1f on probe %s: %d bytes -> %.0f ms, %d bytes -> %.0f ms",
-							p.API, alpha, kind, prev.bytes, prev.cpu, p.Bytes, p.CpuMs)})
+					if alpha > alphaMax {
+						grows := fmt.Sprintf("like size^%.1f", alpha)
+						if p.Truncated {
+							grows = fmt.Sprintf("at least like size^%.1f", alpha)
+						}
+						out = append(out, verdict{"superlinear:" + kind, fmt.Sprintf("%s: CPU time grows %s on probe %s: %d bytes -> %.0f ms, %d bytes -> %s",
+							p.API, grows, kind, prev.bytes, prev.cpu, p.Bytes, cpuTxt)})
 					}
 				}
-				last[p.API] = pt{p.Bytes, math.Max(p.CpuMs, 1)}
+				if p.Truncated {
+					delete(last, p.API) // a lower bound is no base for the growth to the next size
+				} else {
+					last[p.API] = pt{p.Bytes, math.Max(p.CpuMs, 1)}
+				}
 			}
 		}
 		return out
 	}
-	byKind := map[string][]jres{}
+	isTiming := func(cls string) bool {
+		return strings.HasPrefix(cls, "slow:") || strings.HasPrefix(cls, "superlinear:") || strings.HasPrefix(cls, "hang:")
+	}
+	// measureAlone: the jobs of one kind again, one process at a time. Thorough tier: every job complete.
+	// Quick tier: a job that needed more than 0.5 s of CPU in the first pass is run API by API, each
+	// stopped once its CPU time is above every threshold judge compares it with (the slow limit; 1000 ms
+	// and prev*ratio^1.7 for the growth from the previous size, prev measured alone and complete):
+	// the verdicts are those of the complete measurement, the reported time is a lower bound.
+	measureAlone := func(kind string, rs []c08JobRes) []c08JobRes {
+		var again []c08JobRes
+		lastAlone := map[string]pt{}
+		noteProbe := func(q c08Probe) {
+			if q.Truncated {
+				delete(lastAlone, q.API)
+			} else {
+				lastAlone[q.API] = pt{q.Bytes, math.Max(q.CpuMs, 1)}
+			}
+		}
+		for i, res := range rs {
+			total := 0.0
+			for _, p := range res.probes {
+				total += p.CpuMs
+			}
+			if c.Thorough || res.crash != "" || len(res.probes) != len(c08APIs) || total < 500 {
+				nr := c08RunProbe(c, st.self, fmt.Sprintf("b%d", i), res.j, "", 0)
+				for _, q := range nr.probes {
+					noteProbe(q)
+				}
+				again = append(again, nr)
+				continue
+			}
+			nr := c08JobRes{j: res.j}
+			for _, p := range res.probes {
+				budget := limitOf(p.Bytes)
+				if prev, ok := lastAlone[p.API]; ok && p.Bytes > prev.bytes {
+					t := math.Max(1000, prev.cpu*math.Pow(float64(p.Bytes)/float64(prev.bytes), alphaMax))
+					budget = math.Max(budget, t)
+				}
+				budget = budget*1.05 + 50
+				one := c08RunProbe(c, st.self, fmt.Sprintf("b%d", i), res.j, p.API, budget)
+				if one.crash != "" {
+					nr.crash, nr.probes = one.crash, nil
+					break
+				}
+				for _, q := range one.probes {
+					noteProbe(q)
+				}
+				nr.probes = append(nr.probes, one.probes...)
+			}
+			again = append(again, nr)
+		}
+		return again
+	}
+	byKind := map[string][]c08JobRes{}
 	var kinds []string
-	for _, res := range results {
+	for _, res := range st.results {
 		if _, ok := byKind[res.j.kind]; !ok {
 			kinds = append(kinds, res.j.kind)
 		}
 		byKind[res.j.kind] = append(byKind[res.j.kind], res)
 	}
 	var table []map[string]interface{}
+	// pass A: judge the first (concurrent) pass of every kind
+	firstOf := map[string]map[string]float64{}
+	vsOf := map[string][]verdict{}
+	var remeasure []string
 	for _, kind := range kinds {
 		rs := byKind[kind]
+		first := map[string]float64{}
 		for _, res := range rs {
 			r.count(fmt.Sprintf("probe:%s:%d", kind, res.j.n), true)
 			r.hist("scaling-probe")
+			for _, p := range res.probes {
+				first[fmt.Sprintf("%d/%s", p.N, p.API)] = p.CpuMs
+			}
 		}
-		vs := judge(kind, rs)
-		timing := false
+		firstOf[kind] = first
+		vs := judge(kind, rs, first)
+		vsOf[kind] = vs
 		for _, v := range vs {
-			if strings.HasPrefix(v.cls, "slow:") || strings.HasPrefix(v.cls, "superlinear:") || strings.HasPrefix(v.cls, "hang:") {
-				timing = true
+			if isTiming(v.cls) {
+				remeasure = append(remeasure, kind)
+				break
 			}
 		}
-		if timing {
-			// re-execute the whole kind once, alone, before reporting a timing verdict
+	}
+	// pass B: a kind with a timing verdict is measured once more before anything is reported, when the
+	// rest of this harness has finished: the jobs of one kind strictly one after the other (the growth
+	// exponent compares consecutive sizes).  Thorough tier: one kind at a time.  Quick tier: up to three
+	// kinds side by side - the verdicts are on CPU time, which three single-threaded processes on this
+	// many cores do not disturb, and the machine is shared with other checks anyway.
+	again := map[string][]c08JobRes{}
+	{
+		workers := 3
+		if c.Thorough {
+			workers = 1
+		}
+		var wg sync.WaitGroup
+		var mu sync.Mutex
+		queue := make(chan string, len(remeasure))
+		for _, k := range remeasure {
+			queue <- k
+		}
+		close(queue)
+		for w := 0; w < workers; w++ {
+			wg.Add(1)
+			go func() {
+				defer wg.Done()
+				for kind := range queue {
+					rs := measureAlone(kind, byKind[kind])
+					mu.Lock()
+					again[kind] = rs
+					mu.Unlock()
+				}
+			}()
+		}
+		wg.Wait()
+	}
+	// pass C: report, in the fixed order of the kinds
+	for _, kind := range kinds {
+		rs := byKind[kind]
+		first := firstOf[kind]
+		vs := vsOf[kind]
+		if rs2, ok := again[kind]; ok {
+			// verdicts that are not about time (panic, unlocated error, crash) stand from either pass
 			r.hist("scaling-probe-rerun-alone")
-			var again []jres
-			for i, res := range rs {
-				again = append(again, runJob(1000+i, res.j))
+			firstVs := vs
+			rs = rs2
+			for _, res := range rs {
+				for _, q := range res.probes {
+					if q.Truncated {
+						r.hist("scaling-probe-rerun-alone-stopped-at-budget")
+					}
+				}
 			}
-			rs = again
-			vs = judge(kind, rs)
+			vs = judge(kind, rs, first)
+			have := map[string]bool{}
+			for _, v := range vs {
+				have[v.cls] = true
+			}
+			for _, v := range firstVs {
+				if !isTiming(v.cls) && !have[v.cls] {
+					vs = append(vs, v)
+				}
+			}
 		}
 		for _, res := range rs {
 			for _, p := range res.probes {
-				table = append(table, map[string]interface{}{"kind": p.Kind, "n": p.N, "bytes": p.Bytes, "api": p.API, "ms": p.Ms, "cpu_ms": p.CpuMs, "outcome": p.Out})
+				row := map[string]interface{}{"kind": p.Kind, "n": p.N, "bytes": p.Bytes, "api": p.API, "ms": p.Ms, "cpu_ms": p.CpuMs, "outcome": p.Out}
+				if p.Truncated {
+					row["cpu_ms_is_lower_bound"] = true
+					row["first_pass_cpu_ms"] = first[fmt.Sprintf("%d/%s", p.N, p.API)]
+				}
+				table = append(table, row)
 			}
 		}
 		for _, v := range vs {
